@@ -1267,8 +1267,9 @@ def _del_path(inst: Any, path: list) -> Any:
     return new
 
 
-def _walk(doc: dict, s: dict, value: Any, path: list, loc: str, in_union: bool, out: list, root: Any, depth: int = 0) -> None:
-    """collect raw mutations (not yet confirmed) below schema s / value"""
+def _walk(doc: dict, s: dict, value: Any, path: list, loc: str, in_union: bool, out: list, root: Any, depth: int = 0, ctx_cause: str = "none") -> None:
+    """collect raw mutations (not yet confirmed) below schema s / value; `ctx_cause`: trigger class inherited from
+    an enclosing construct (the value schema of a map object behind a nullable type list)"""
     if depth > 6 or not isinstance(s, dict):
         return
     sr = resolve(doc, s)
@@ -1277,7 +1278,7 @@ def _walk(doc: dict, s: dict, value: Any, path: list, loc: str, in_union: bool, 
         for i, alt in enumerate(alts):
             if sub_validator(doc, alt).is_valid(value):
                 n0 = len(out)
-                _walk(doc, alt, value, path, loc, True, out, root, depth + 1)
+                _walk(doc, alt, value, path, loc, True, out, root, depth + 1, ctx_cause)
                 others = [resolve(doc, a) for j, a in enumerate(alts) if j != i]
                 for m in out[n0:]:
                     if m.path == path:
@@ -1287,8 +1288,9 @@ def _walk(doc: dict, s: dict, value: Any, path: list, loc: str, in_union: bool, 
     if "allOf" in sr:
         sr = merge_all_of(doc, sr)
     for kw, v, leaf in _leaf_mutations(doc, sr, value, loc):
-        out.append(Mutation(_set_path(root, path, v), kw, loc, path, leaf, _cause(kw, leaf), in_union, v))
-    if isinstance(value, dict) and ("properties" in sr or sr.get("type") == "object"):
+        c0 = _cause(kw, leaf)
+        out.append(Mutation(_set_path(root, path, v), kw, loc, path, leaf, c0 if c0 != "none" else ctx_cause, in_union, v))
+    if isinstance(value, dict) and ("properties" in sr or "object" in types_of(sr)):
         props = sr.get("properties", {})
         for nm in sr.get("required", []):
             if nm in value:
@@ -1305,7 +1307,7 @@ def _walk(doc: dict, s: dict, value: Any, path: list, loc: str, in_union: bool, 
             if nm in value:
                 if value[nm] is None:
                     continue
-                _walk(doc, psch, value[nm], [*path, nm], "member", in_union, out, root, depth + 1)
+                _walk(doc, psch, value[nm], [*path, nm], "member", in_union, out, root, depth + 1, ctx_cause)
                 # null for a required, non-nullable member is a type violation
                 if nm in sr.get("required", []) and not admits_null(doc, psch):
                     pr = resolve(doc, psch)
@@ -1313,12 +1315,13 @@ def _walk(doc: dict, s: dict, value: Any, path: list, loc: str, in_union: bool, 
                     out.append(Mutation(_set_path(root, [*path, nm], None), "type", "member", [*path, nm], pr, cause, in_union, None))
         ap = sr.get("additionalProperties")
         if isinstance(ap, dict) and not props:
+            nmap = "nullable_map_value" if isinstance(sr.get("type"), list) and "null" in sr["type"] else ctx_cause
             for k, v in value.items():
-                _walk(doc, ap, v, [*path, k], "ap_value", in_union, out, root, depth + 1)
+                _walk(doc, ap, v, [*path, k], "ap_value", in_union, out, root, depth + 1, nmap)
                 break
     if isinstance(value, list) and isinstance(sr.get("items"), dict):
         for i, v in enumerate(value[:1]):
-            _walk(doc, sr["items"], v, [*path, i], "array_item", in_union, out, root, depth + 1)
+            _walk(doc, sr["items"], v, [*path, i], "array_item", in_union, out, root, depth + 1, ctx_cause)
 
 
 def mutations(doc: dict, instance: Any) -> list[Mutation]:
@@ -1378,6 +1381,8 @@ def lax_coercible(style: str, value: Any, alt: dict) -> bool:
             return True
         if t == "integer" and style == "v1" and isinstance(value, float):
             return True  # v1: int(1.5)
+        if t == "object" and style == "v1" and isinstance(value, (list, tuple)):
+            return True  # v1: dict([]) / a sequence of pairs -> dict
         if t == "boolean" and (value in (0, 1) or (isinstance(value, str) and value.lower() in ("0", "1", "on", "off", "t", "f", "true", "false", "y", "n", "yes", "no"))):
             return True
     return False
